@@ -81,7 +81,7 @@ def drive(ctx):
         loc = "en" if n % 3 else rnd.choice(locs)
         ctx.emit("format", {"items": [tok(t)], "locale": loc, "method": "format", "named": ""}, [v])
     # random token sequences with separators and escapes
-    for k in range(120 if q else 2500):
+    for k in range(400 if q else 2500):
         items = []
         for j in range(rnd.randrange(2, 7)):
             items.append(tok(rnd.choice(TOKENS)))
